@@ -71,28 +71,53 @@ var rpcClasses = []rpcClass{
 	{"remove-twice", "error", "Insert, Remove, Remove and Update of the same id"},
 	{"insert-oversized-metadata", "error", "Insert with a 300-byte metadata key (the snapshot format holds 255)"},
 	{"update-oversized-metadata", "error", "Update of a stored id with a 70000-byte metadata value; the item must stay"},
+	{"batch-insert-client-level", "ok", "BatchInsert whose items carry client-chosen levels -7, 2^30 and -1 (a wire field): the items are stored at levels the server drew"},
+	{"partition-batch-insert-client-level", "ok", "PartitionBatchInsert (node-to-node RPC, open to any client) whose items carry levels -7 and 2^30"},
 	{"batch-duplicate-and-absent", "ok", "BatchUpdate / BatchRemove mixing duplicates and absent ids"},
 	{"delete-dataset-under-write-load", "ok", "25 x (create a dataset, write to it from three clients, delete it while they write)"},
 }
 
 func runRpc(c *Ctx) {
-	c.Stats.Rule = "one child process per request class (37 classes: malformed / truncated ids on every write RPC incl. the node-to-node PartitionBatch* RPCs, wrong and zero dimensions, zero partition / replica counts, unknown metric, k = 0 and k = 2^32-1, non-finite numbers, missing metadata, oversized batches, unknown ids) against a real single-node stack on disk, followed by a liveness probe and a restart that replays everything the requests left in the logs; every class is a distinct non-trivial case"
+	c.Stats.Rule = "one child process per request class (39 classes: malformed / truncated ids on every write RPC incl. the node-to-node PartitionBatch* RPCs, wrong and zero dimensions, zero partition / replica counts, unknown metric, k = 0 and k = 2^32-1, non-finite numbers, missing metadata, oversized batches, unknown ids) against a real single-node stack on disk, followed by a liveness probe and a restart that replays everything the requests left in the logs; every class is a distinct non-trivial case"
 	base := os.Getenv("VERIF_TMP")
 	if base == "" {
 		base = os.TempDir()
 	}
 	only := c.Args["class"]
-	for _, cl := range rpcClasses {
+	// the classes are independent (one child process and one data directory each): run several at once,
+	// report in table order
+	type childRes struct {
+		out  string
+		died bool
+	}
+	results := make([]childRes, len(rpcClasses))
+	sem := make(chan struct{}, c.ArgInt("par", 6))
+	var wg sync.WaitGroup
+	for i, cl := range rpcClasses {
+		if only != "" && only != cl.name {
+			continue
+		}
+		wg.Add(1)
+		go func(i int, name string) {
+			defer wg.Done()
+			sem <- struct{}{}
+			defer func() { <-sem }()
+			dir, err := os.MkdirTemp(base, "verif-rpc-")
+			if err != nil {
+				panic(err)
+			}
+			out, died := runChild(120*time.Second, "rpc", name, dir)
+			os.RemoveAll(dir)
+			results[i] = childRes{out, died}
+		}(i, cl.name)
+	}
+	wg.Wait()
+	for i, cl := range rpcClasses {
 		if only != "" && only != cl.name {
 			continue
 		}
 		c.Begin("rpc " + cl.name)
-		dir, err := os.MkdirTemp(base, "verif-rpc-")
-		if err != nil {
-			panic(err)
-		}
-		out, died := runChild(90*time.Second, "rpc", cl.name, dir)
-		os.RemoveAll(dir)
+		out, died := results[i].out, results[i].died
 		c.OpLocal("%s -> %s", cl.what, strings.ReplaceAll(strings.TrimSpace(out), "\n", " ; "))
 		c.Nontrivial(cl.name)
 		lines := strings.Split(strings.TrimSpace(out), "\n")
@@ -234,6 +259,27 @@ func childRpc(args []string) {
 				_, err = n.dmSrv.PartitionBatchUpdate(ctx, req)
 			default:
 				_, err = n.dmSrv.PartitionBatchRemove(ctx, req)
+			}
+			return report(err)
+		case "batch-insert-client-level":
+			items := []*pb.BatchItem{valid(20), valid(21), valid(22)}
+			items[0].Level, items[1].Level, items[2].Level = -7, 1<<30, -1
+			resp, err := n.dmSrv.BatchInsert(ctx, &pb.BatchRequest{DatasetId: dsId.Bytes(), Items: items})
+			if err == nil && len(resp.GetErrors()) > 0 {
+				return "error per-item " + fmt.Sprint(resp.GetErrors())
+			}
+			return report(err)
+		case "partition-batch-insert-client-level":
+			var items []*pb.BatchItem
+			for i := 60; i < 90 && len(items) < 2; i++ { // ids owned by that partition
+				if d.VerifPartitionAt(d.VerifOwnerIndex(rid(i))).Id() == pid {
+					items = append(items, &pb.BatchItem{Id: rid(i).Bytes(), Value: amath.Vector{float32(i), 2}})
+				}
+			}
+			items[0].Level, items[1].Level = -7, 1<<30
+			resp, err := n.dmSrv.PartitionBatchInsert(ctx, &pb.PartitionBatchRequest{DatasetId: dsId.Bytes(), PartitionId: pid.Bytes(), Items: items})
+			if err == nil && len(resp.GetErrors()) > 0 {
+				return "error per-item " + fmt.Sprint(resp.GetErrors())
 			}
 			return report(err)
 		case "partition-batch-insert-wrong-dimension", "partition-batch-update-wrong-dimension":
